@@ -33,6 +33,9 @@ pub struct Params {
     pub resume_rip: u64,
     /// RSP seen by the handler at entry (filled by observers that want it)
     pub entry_rsp: u64,
+    /// RFLAGS of the caller of `deliver`, put back right after the resumed context's RFLAGS were recorded (the frame may
+    /// carry NT or AC, with which this process must not keep running)
+    pub saved_flags: u64,
 }
 
 pub static mut CUR: *mut Params = core::ptr::null_mut();
@@ -47,6 +50,8 @@ pub unsafe extern "C" fn deliver(p: *mut Params) {
         "push r14",
         "push r15",
         "mov [rdi + {saved_rsp}], rsp",
+        "pushfq",
+        "pop qword ptr [rdi + {saved_flags}]",
         "mov [rip + {cur}], rdi",
         "lea rax, [rip + 2f]",
         "mov [rdi + {resume_rip}], rax",
@@ -73,6 +78,8 @@ pub unsafe extern "C" fn deliver(p: *mut Params) {
         "mov rsp, [rdi + {saved_rsp}]",
         "pushfq",
         "pop qword ptr [rdi + {out_flags}]",
+        "push qword ptr [rdi + {saved_flags}]",
+        "popfq",
         "mov qword ptr [rdi + {out_path}], 1",
         "cld",
         "pop r15",
@@ -96,6 +103,7 @@ pub unsafe extern "C" fn deliver(p: *mut Params) {
         out_rsp = const offset_of!(Params, out_rsp),
         out_flags = const offset_of!(Params, out_flags),
         out_path = const offset_of!(Params, out_path),
+        saved_flags = const offset_of!(Params, saved_flags),
         cur = sym CUR,
     )
 }
